@@ -11,7 +11,7 @@ cfg = cfgt[1].replace("SPECIFICATION ExportSpec", "SPECIFICATION DebugSpec")
 cfg = "\n".join(l for l in cfg.splitlines() if not l.startswith(("INVARIANT", "VIEW"))) + "\n"
 cp = os.path.join(vlib.WORK, "runs", f"{name}.conf.ndjson")
 runs = {json.loads(l)["run"]: json.loads(l) for l in open(cp)}
-r = vlib.tlc("EndpointConform" if cfgt[2] == "MC_Endpoint" else g["conform"]["module"], cfg, "confdbg", workers=1, cache=False, env=dict(CONF=cp),
+r = vlib.tlc("EndpointConform" if cfgt[2] == "MC_Endpoint" else "OutConform" if cfgt[2] == "MC_Out" else g["conform"]["module"], cfg, "confdbg", workers=1, cache=False, env=dict(CONF=cp),
              java_opts="-Xss1g -Xmx3g -Dtlc2.tool.queue.IStateQueue=StateDeque", out_path="/tmp/confdbg.txt")
 seen = set(); n = 0
 for a in vlib.prints(r["out"], "DIFF"):
